@@ -4,12 +4,24 @@
 // at least k bytes are left; then the value is their little-endian decoding and
 // exactly k bytes are consumed; otherwise it returns Err (end of data) and nothing
 // is promised about the stream.  (byteorder's read_u16::<LittleEndian> etc.,
-// turbofish dropped by X3.)  Spurious I/O errors are not modelled: they take the
-// same `?` paths as end of data.
+// turbofish dropped by X3.)
+// I/O FAULTS: besides "not enough bytes" (which byteorder / read_exact report as an error of
+// kind UnexpectedEof) a read may fail because the medium failed; `failed()` records that some
+// call on this source has hit such a fault.  A reader's contract can then say that a fault is
+// REPORTED (C15: "also failing reads"): after a fault the reader returns Err.  An error is of
+// kind UnexpectedEof exactly when it is the end-of-data error (`err_is_eof`).
 pub struct VSource {
     pub whole: Ghost<Seq<u8>>,
     pub pos: Ghost<int>,
+    pub faulted: Ghost<bool>,
 }
+// the kind of an io::Error, as far as the readers care
+pub uninterp spec fn err_is_eof(e: &std::io::Error) -> bool;
+// X7 call shim for `error.kind() == io::ErrorKind::UnexpectedEof`
+#[verifier::external_body]
+pub fn vx_err_is_eof(e: &std::io::Error) -> (r: bool)
+    ensures r == err_is_eof(e)
+{ e.kind() == std::io::ErrorKind::UnexpectedEof }
 
 #[verifier::external_type_specification]
 pub struct ExSeekFrom(std::io::SeekFrom);
@@ -26,6 +38,8 @@ impl VSource {
     // the whole stream, and what is left from the current position (seeking past the end is
     // allowed, as with std::io::Cursor: nothing is left then)
     pub closed spec fn all(&self) -> Seq<u8> { self.whole@ }
+    // some read or seek on this source has failed for a reason other than the end of the data
+    pub closed spec fn failed(&self) -> bool { self.faulted@ }
     pub closed spec fn left(&self) -> Seq<u8> {
         if 0 <= self.pos@ <= self.whole@.len() { self.whole@.skip(self.pos@) } else { Seq::<u8>::empty() }
     }
@@ -39,7 +53,9 @@ impl VSource {
             r is Ok ==> (to matches std::io::SeekFrom::Start(n) ==> final(self).left() ==
                 (if n as int <= old(self).all().len() { old(self).all().skip(n as int) } else { Seq::<u8>::empty() })),
             // an in-memory stream: seeking to an absolute position or to the end cannot fail
-            (to is Start || to is End) ==> r is Ok,
+            (to is Start || to is End) && !final(self).failed() ==> r is Ok,
+            r is Ok ==> final(self).failed() == old(self).failed(),
+            r is Err ==> final(self).failed(),
             // `SeekFrom::End(0)`: the end of the stream; the result is its length
             r is Ok ==> (to matches std::io::SeekFrom::End(n) ==> (n == 0 ==>
                 final(self).left() == Seq::<u8>::empty() && r->Ok_0 as int == old(self).all().len())),
@@ -50,8 +66,9 @@ impl VSource {
     pub fn rewind(&mut self) -> (r: std::io::Result<()>)
         ensures
             final(self).all() == old(self).all(),
-            r is Ok,
-            final(self).left() == old(self).all(),
+            !final(self).failed() ==> r is Ok,
+            r is Ok ==> final(self).left() == old(self).all() && final(self).failed() == old(self).failed(),
+            r is Err ==> final(self).failed(),
     { unimplemented!() }
 
     // `reader.stream_position()`: the current position; the stream is unchanged.  While bytes are
@@ -62,6 +79,8 @@ impl VSource {
         ensures
             final(self).all() == old(self).all(),
             final(self).left() == old(self).left(),
+            r is Ok ==> final(self).failed() == old(self).failed(),
+            r is Err ==> final(self).failed(),
             r is Ok ==> r->Ok_0 as int >= old(self).all().len() - old(self).left().len(),
             r is Ok && old(self).left().len() > 0 ==> r->Ok_0 as int == old(self).all().len() - old(self).left().len(),
     { unimplemented!() }
@@ -71,7 +90,10 @@ impl VSource {
     pub fn read_exact16(&mut self, buf: &mut [u8; 16]) -> (r: std::io::Result<()>)
         ensures
             final(self).all() == old(self).all(),
-            old(self).left().len() >= 16 ==> r is Ok,
+            old(self).left().len() >= 16 && !final(self).failed() ==> r is Ok,
+            r is Ok ==> final(self).failed() == old(self).failed(),
+            r is Err ==> (err_is_eof(&r->Err_0) ==> old(self).left().len() < 16 && final(self).failed() == old(self).failed())
+                && (!err_is_eof(&r->Err_0) ==> final(self).failed()),
             r is Ok ==> old(self).left().len() >= 16 && final(buf)@ == old(self).left().take(16)
                 && final(self).left() == old(self).left().skip(16),
     { unimplemented!() }
@@ -80,7 +102,10 @@ impl VSource {
     pub fn read_u8(&mut self) -> (r: std::io::Result<u8>)
         ensures
             final(self).all() == old(self).all(),
-            old(self).left().len() >= 1 ==> r is Ok,
+            old(self).left().len() >= 1 && !final(self).failed() ==> r is Ok,
+            r is Ok ==> final(self).failed() == old(self).failed(),
+            r is Err ==> (err_is_eof(&r->Err_0) ==> old(self).left().len() < 1 && final(self).failed() == old(self).failed())
+                && (!err_is_eof(&r->Err_0) ==> final(self).failed()),
             r is Ok ==> old(self).left().len() >= 1 && r->Ok_0 == old(self).left()[0] && final(self).left() == old(self).left().skip(1),
     { unimplemented!() }
 
@@ -88,7 +113,10 @@ impl VSource {
     pub fn read_i8(&mut self) -> (r: std::io::Result<i8>)
         ensures
             final(self).all() == old(self).all(),
-            old(self).left().len() >= 1 ==> r is Ok,
+            old(self).left().len() >= 1 && !final(self).failed() ==> r is Ok,
+            r is Ok ==> final(self).failed() == old(self).failed(),
+            r is Err ==> (err_is_eof(&r->Err_0) ==> old(self).left().len() < 1 && final(self).failed() == old(self).failed())
+                && (!err_is_eof(&r->Err_0) ==> final(self).failed()),
             r is Ok ==> old(self).left().len() >= 1 && r->Ok_0 == old(self).left()[0] as i8 && final(self).left() == old(self).left().skip(1),
     { unimplemented!() }
 
@@ -96,7 +124,10 @@ impl VSource {
     pub fn read_u16(&mut self) -> (r: std::io::Result<u16>)
         ensures
             final(self).all() == old(self).all(),
-            old(self).left().len() >= 2 ==> r is Ok,
+            old(self).left().len() >= 2 && !final(self).failed() ==> r is Ok,
+            r is Ok ==> final(self).failed() == old(self).failed(),
+            r is Err ==> (err_is_eof(&r->Err_0) ==> old(self).left().len() < 2 && final(self).failed() == old(self).failed())
+                && (!err_is_eof(&r->Err_0) ==> final(self).failed()),
             r is Ok ==> old(self).left().len() >= 2 && r->Ok_0 == u16_le(old(self).left()) && final(self).left() == old(self).left().skip(2),
     { unimplemented!() }
 
@@ -104,7 +135,10 @@ impl VSource {
     pub fn read_i16(&mut self) -> (r: std::io::Result<i16>)
         ensures
             final(self).all() == old(self).all(),
-            old(self).left().len() >= 2 ==> r is Ok,
+            old(self).left().len() >= 2 && !final(self).failed() ==> r is Ok,
+            r is Ok ==> final(self).failed() == old(self).failed(),
+            r is Err ==> (err_is_eof(&r->Err_0) ==> old(self).left().len() < 2 && final(self).failed() == old(self).failed())
+                && (!err_is_eof(&r->Err_0) ==> final(self).failed()),
             r is Ok ==> old(self).left().len() >= 2 && r->Ok_0 == u16_le(old(self).left()) as i16 && final(self).left() == old(self).left().skip(2),
     { unimplemented!() }
 
@@ -112,7 +146,10 @@ impl VSource {
     pub fn read_u32(&mut self) -> (r: std::io::Result<u32>)
         ensures
             final(self).all() == old(self).all(),
-            old(self).left().len() >= 4 ==> r is Ok,
+            old(self).left().len() >= 4 && !final(self).failed() ==> r is Ok,
+            r is Ok ==> final(self).failed() == old(self).failed(),
+            r is Err ==> (err_is_eof(&r->Err_0) ==> old(self).left().len() < 4 && final(self).failed() == old(self).failed())
+                && (!err_is_eof(&r->Err_0) ==> final(self).failed()),
             r is Ok ==> old(self).left().len() >= 4 && r->Ok_0 == u32_le(old(self).left()) && final(self).left() == old(self).left().skip(4),
     { unimplemented!() }
 
@@ -120,7 +157,10 @@ impl VSource {
     pub fn read_i32(&mut self) -> (r: std::io::Result<i32>)
         ensures
             final(self).all() == old(self).all(),
-            old(self).left().len() >= 4 ==> r is Ok,
+            old(self).left().len() >= 4 && !final(self).failed() ==> r is Ok,
+            r is Ok ==> final(self).failed() == old(self).failed(),
+            r is Err ==> (err_is_eof(&r->Err_0) ==> old(self).left().len() < 4 && final(self).failed() == old(self).failed())
+                && (!err_is_eof(&r->Err_0) ==> final(self).failed()),
             r is Ok ==> old(self).left().len() >= 4 && r->Ok_0 == u32_le(old(self).left()) as i32 && final(self).left() == old(self).left().skip(4),
     { unimplemented!() }
 
@@ -128,7 +168,10 @@ impl VSource {
     pub fn read_u64(&mut self) -> (r: std::io::Result<u64>)
         ensures
             final(self).all() == old(self).all(),
-            old(self).left().len() >= 8 ==> r is Ok,
+            old(self).left().len() >= 8 && !final(self).failed() ==> r is Ok,
+            r is Ok ==> final(self).failed() == old(self).failed(),
+            r is Err ==> (err_is_eof(&r->Err_0) ==> old(self).left().len() < 8 && final(self).failed() == old(self).failed())
+                && (!err_is_eof(&r->Err_0) ==> final(self).failed()),
             r is Ok ==> old(self).left().len() >= 8 && r->Ok_0 == u64_le(old(self).left()) && final(self).left() == old(self).left().skip(8),
     { unimplemented!() }
 
@@ -137,7 +180,10 @@ impl VSource {
         ensures
             final(self).all() == old(self).all(),
             final(buf)@.len() == old(buf)@.len(),
-            old(self).left().len() >= old(buf)@.len() ==> r is Ok,
+            old(self).left().len() >= old(buf)@.len() && !final(self).failed() ==> r is Ok,
+            r is Ok ==> final(self).failed() == old(self).failed(),
+            r is Err ==> (err_is_eof(&r->Err_0) ==> old(self).left().len() < old(buf)@.len() && final(self).failed() == old(self).failed())
+                && (!err_is_eof(&r->Err_0) ==> final(self).failed()),
             r is Ok ==> old(self).left().len() >= old(buf)@.len() && final(buf)@ == old(self).left().take(old(buf)@.len() as int)
                 && final(self).left() == old(self).left().skip(old(buf)@.len() as int),
     { unimplemented!() }
